@@ -5,7 +5,6 @@ use std::{
     collections::HashSet,
     iter::{Chain, Flatten},
     num::NonZeroU64,
-    ops::Bound,
 };
 
 use anyhow::{anyhow, Result};
@@ -884,22 +883,29 @@ impl<'a> crate::ranger::Store<SignedEntry> for StoreInstance<'a> {
                 // but entries of other documents must never be visible (or sent) through here
                 let bounds = RecordsBounds::within_namespace(
                     &self.namespace,
-                    range.x().to_byte_tuple(),
-                    range.y().to_byte_tuple(),
+                    Some(range.x().to_byte_tuple()),
+                    Some(range.y().to_byte_tuple()),
                 );
                 let iter = RecordsRange::with_bounds(&tables.records, bounds)?;
                 chain_none(iter)
             }
             // split range: iter1 = start <= t < y, iter2 = x <= t <= end
             Ordering::Greater => {
-                // iterator for entries from start to range.y
-                let end = Bound::Excluded(range.y().to_byte_tuple());
-                let bounds = RecordsBounds::from_start(&self.namespace, end);
+                // iterator for entries from start to range.y (both halves clamped to this
+                // replica's namespace: the bounds come from the peer)
+                let bounds = RecordsBounds::within_namespace(
+                    &self.namespace,
+                    None,
+                    Some(range.y().to_byte_tuple()),
+                );
                 let iter = RecordsRange::with_bounds(&tables.records, bounds)?;
 
                 // iterator for entries from range.x to end
-                let start = Bound::Included(range.x().to_byte_tuple());
-                let bounds = RecordsBounds::to_end(&self.namespace, start);
+                let bounds = RecordsBounds::within_namespace(
+                    &self.namespace,
+                    Some(range.x().to_byte_tuple()),
+                    None,
+                );
                 let iter2 = RecordsRange::with_bounds(&tables.records, bounds)?;
 
                 iter.chain(Some(iter2).into_iter().flatten())
